@@ -32,6 +32,9 @@ pub fn check_trace(em: &mut Emitter, what: &str, src: &str, p: &vm_core::Program
     if !ctx.len.is_power_of_two() || ctx.len < need || ctx.len < 64 || (ctx.len / 2 >= need && ctx.len > 64) {
         em.oracle_failures.push(format!("C03 trace length {} is not the least power of two >= max(64, {}) ({}): `{}`", ctx.len, need, what, src));
     }
+    // tie of the Lean model of honest rows (Model/Honest.lean: helper registers, depth helper column,
+    // next-row stack cells) to the rows of this real trace; subject of Props/C03Air.lean
+    emit_hrows(em, &ctx, s.main_trace_len(), counters[0]);
     let hv = ctx.honest_violations();
     // u32 arithmetic applied to operands >= 2^32 is documented as undefined: the VM executes it but
     // the row cannot satisfy the limb constraints. Reported as its own (known) class.
@@ -242,4 +245,74 @@ pub fn generate(em: &mut Emitter, seed: u64, thorough: bool) {
     em.stat("rows_checked", counters[1]);
     em.stat("aux_segments_checked", counters[2]);
     em.stat("traces_with_undefined_u32_inputs", counters[3]);
+}
+
+/// `hrow` requests: for user-operation rows of a real trace, the helper registers h0..h5, the depth
+/// helper column and the stack cells / depth / fmp of the next row, as the processor wrote them.
+fn emit_hrows(em: &mut Emitter, ctx: &AirCtx, main_len: usize, trace_no: u64) {
+    use air::trace::{stack::*, CLK_COL_IDX, DECODER_TRACE_OFFSET, FMP_COL_IDX, STACK_TRACE_OFFSET};
+    let helpers = DECODER_TRACE_OFFSET + 8 + 2;
+    let s0 = STACK_TRACE_OFFSET;
+    let b0 = STACK_TRACE_OFFSET + B0_COL_IDX;
+    let h0 = STACK_TRACE_OFFSET + H0_COL_IDX;
+    let ops = crate::export::all_ops();
+    let n = main_len.min(ctx.last_step);
+    let mut emitted = 0usize;
+    for step in 0..n.saturating_sub(1) {
+        let opc = ctx.opcode_at(step);
+        // operations whose stack effect needs memory, the advice provider, the hasher or the kernel, or
+        // whose helper registers carry chiplet addresses / other words, are outside `helpersOf`
+        let outside = matches!(opc, 7 | 9 | 14 | 40 | 44 | 45 | 46 | 61 | 80 | 81 | 82 | 83 | 89 | 96);
+        let op = match ops.iter().find(|o| o.op_code() == opc) {
+            Some(o) if !o.is_control_op() && !outside => o,
+            _ => continue,
+        };
+        let cur = &ctx.rows[step];
+        let nxt = &ctx.rows[step + 1];
+        let writes_helpers = matches!(opc, 1 | 15 | 33 | 64..=78);
+        // every helper-writing row, a sample of the others (bounded per trace)
+        if !writes_helpers && (step as u64 + trace_no) % 4 != 0 {
+            continue;
+        }
+        if emitted >= 400 {
+            break;
+        }
+        // undefined u32 inputs are not honest rows (known finding)
+        let nops = match opc { 64 | 66 | 68 | 70 => 2, 76 | 78 => 3, _ => 0 };
+        if (0..nops).any(|i| cur[s0 + i].as_int() >= (1 << 32)) {
+            continue;
+        }
+        emitted += 1;
+        let dbg = format!("{:?}", op);
+        let name = dbg.split('(').next().unwrap().to_lowercase();
+        let tok = match op {
+            vm_core::Operation::Push(_) => format!("push:{}", nxt[s0].as_int()),
+            vm_core::Operation::Assert(_) => "assert:0".to_string(),
+            vm_core::Operation::U32assert2(_) => "u32assert2:0".to_string(),
+            _ => name,
+        };
+        let depth = cur[b0].as_int();
+        let left = matches!(opc, 32..=47 | 76 | 78);
+        let cells: Vec<String> = (0..16)
+            .map(|i| if left && depth > 16 && i == 15 { "-".to_string() } else { nxt[s0 + i].as_int().to_string() })
+            .collect();
+        em.emit(
+            format!(
+                "hrow {} {} {} {} {}",
+                tok,
+                cur[CLK_COL_IDX].as_int(),
+                cur[FMP_COL_IDX].as_int(),
+                depth,
+                join_u64((0..16).map(|i| cur[s0 + i].as_int()))
+            ),
+            format!(
+                "hlp {} h0 {} next {} {} {}",
+                join_u64((0..6).map(|i| cur[helpers + i].as_int())),
+                cur[h0].as_int(),
+                cells.join(","),
+                nxt[b0].as_int(),
+                nxt[FMP_COL_IDX].as_int()
+            ),
+        );
+    }
 }
